@@ -191,6 +191,43 @@ def run(ctx):
         ctx.fail("R4.4", "write:frame-writes", f"{len(fpw)} write calls per frame", wr, key="R4.4:write:frame-writes")
 
 
+    # ------------------------------------------------------------------ R4.7 a failing write is never swallowed on the write path
+    ctx.rule("R4.7", "no handler on the write path (writer, descriptor notification, packer) catches OSError/Exception without re-raising: a failed or short write must surface, "
+                     "otherwise later frames follow a frame that is not on disk")
+    path_fns = ["flow.record.stream.RecordStreamWriter.write", "flow.record.stream.RecordStreamWriter.on_descriptor", "flow.record.stream.RecordStreamWriter.writeheader",
+                "flow.record.stream.RecordStreamWriter.__write", "flow.record.utils.EventHandler.__call__", "flow.record.packer.RecordPacker.register",
+                "flow.record.packer.RecordPacker.pack", "flow.record.packer.RecordPacker.pack_obj"]
+    n_fn = 0
+    for qn in path_fns:
+        try:
+            f0 = prog.func(qn)
+        except AnalysisError:
+            continue
+        n_fn += 1
+        ctx.use(f0._module)
+        for tr in [n for n in ast.walk(f0) if isinstance(n, ast.Try)]:
+            for h in tr.handlers:
+                names = [norm(x) for x in (h.type.elts if isinstance(h.type, ast.Tuple) else [h.type])] if h.type is not None else ["BaseException"]
+                broad = [nm for nm in names if nm.split(".")[-1] in ("BaseException", "Exception", "OSError", "IOError", "EnvironmentError")]
+                if not broad:
+                    continue
+
+                def _reraises(stmts):
+                    if not stmts:
+                        return False
+                    last = stmts[-1]
+                    if isinstance(last, ast.Raise):
+                        return True
+                    if isinstance(last, ast.If) and last.orelse:
+                        return _reraises(last.body) and _reraises(last.orelse)
+                    return False
+
+                ctx.check(_reraises(h.body), "R4.7", f"{qn.replace('flow.record.', '')}:except {broad[0]}", f"`except {', '.join(names)}` on the write path does not re-raise: an I/O error while "
+                          "writing a frame (e.g. the descriptor frame) is swallowed and the following frames are written after a hole", h, "handler re-raises",
+                          key=f"R4.7:{qn.replace('flow.record.', '')}:swallows:{broad[0]}")
+    ctx.floor("R4.7", "write-path functions inspected", n_fn, 6)
+    ctx.ok("R4.7", "write-path:handlers", f"{n_fn} write-path functions inspected", None)
+
     # ------------------------------------------------------------------ R4.6 no buffering layer over a raising decompressor
     ctx.rule("R4.6", "read-mode gzip/bz2/lz4 decompressors are handed to the frame reader directly: an io.Buffered*/TextIOWrapper layer "
                      "around them fills its buffer with one large readinto(), and when the decompressor raises EOFError at a truncated end "
